@@ -10,7 +10,7 @@ CONSTANTS
   PAIRS = FALSE
   PATLEN = 3
   INLEN = 3
-  ELEMKINDS = {"v", "k", "le"}
-  INKINDS = {"1", "k", "l2"}
+  ELEMKINDS = {"v", "k", "c", "le"}
+  INKINDS = {"1", "k", "7", "l2"}
 INVARIANTS InDomain SynErrSilent GlobalsSuffixed HEmit
 CHECK_DEADLOCK FALSE
